@@ -18,6 +18,9 @@ on event synchronization and event coincidence analysis
 """
 
 # array object and fast numerics
+from typing import Tuple
+from collections.abc import Hashable
+
 import numpy as np
 
 from ..eventseries import EventSeries
@@ -194,6 +197,14 @@ class EventSeriesClimateNetwork(EventSeries, ClimateNetwork):
                                 similarity_measure=measure_matrix,
                                 threshold=0, directed=self.directed,
                                 **CN_kwargs)
+
+    def __cache_state__(self) -> Tuple[Hashable, ...]:
+        # both parents contribute (the MRO alone would pick EventSeries' `()`);
+        # the event series is analysed before `ClimateNetwork.__init__()` runs
+        network_state = (
+            ClimateNetwork.__cache_state__(self) if hasattr(self, "_mut_clim")
+            else ())
+        return EventSeries.__cache_state__(self) + network_state
 
     def __str__(self):
         """
